@@ -657,12 +657,15 @@ def run(ctx):
         rn.one(random_registry_case(ctx.rng))
     rn.flush()
     from props import c07fam; c07fam.run(ctx)
+    from props import c07builtin; c07builtin.run(ctx)
 
 
 def replay(ctx, case):
     c = case.get('case', case)
     if c.get('fam'):
         from props import c07fam; return c07fam.replay(ctx, case)
+    if c.get('builtin'):
+        from props import c07builtin; return c07builtin.replay(ctx, case)
     rn = Runner(ctx)
     if c.get('kind') == 'reentrant':
         run_reentrant(rn, c)
